@@ -161,8 +161,17 @@ class EngineB:
         """returns list of Obligations (one per clause, plus the 'raises' clause)"""
         t0 = time.time()
         Z = Sorts.get()
-        msrc, fn = source.func(c.qualname)
         modname, fname = c.qualname.split(":")
+        import_failure = None
+        try:
+            msrc, fn = source.func(c.qualname)
+        except Exception as e:  # noqa
+            if not modname.startswith("pyvcfrag_"):
+                raise
+            # a module generated by the real generator for a schematic document does not import: the unit under contract
+            # does not exist, every clause about it is false
+            import_failure = f"the generated module {modname.split('.', 1)[-1]} does not import: {type(e).__name__}: {e}"
+            msrc, fn = None, None
         if modname.startswith("pyvcfrag_"):
             fname = modname.split(".")[-1] + "." + fname
         base_id = f"{prop_id}.B.{fname}.{case.name}"
@@ -174,7 +183,10 @@ class EngineB:
             ob = Obligation(id=f"{base_id}.{cl.name}", props=list(cl.props or case.props or [prop_id]), unit=c.qualname,
                             backend="z3", formula=cl.statement or cl.name)
             obs[cl.name] = ob
-            if fn is None:
+            if import_failure:
+                ob.status = PROVED if cl is raises_clause else REFUTED
+                ob.detail = import_failure[:600] if cl is not raises_clause else "not applicable: see sibling obligation"
+            elif fn is None:
                 ob.status = UNDECIDED
                 ob.detail = f"function {c.qualname} not found in the current tree"
             else:
